@@ -785,11 +785,190 @@ func genTrunc(g *lp.Gen) {
 	}
 }
 
+// ---------------------------------------------------------------- opening handshake
+
+func hx(s string) string { return lp.Hex([]byte(s)) }
+
+func kvs(h [][2]string) string {
+	if len(h) == 0 {
+		return "-"
+	}
+	var out []string
+	for _, kv := range h {
+		out = append(out, hx(kv[0])+":"+hx(kv[1]))
+	}
+	return strings.Join(out, ",")
+}
+
+func spell(g *lp.Gen, name string) string {
+	switch g.Intn(5) {
+	case 0:
+		return strings.ToLower(name)
+	case 1:
+		return strings.ToUpper(name)
+	}
+	return name
+}
+
+func b64key(g *lp.Gen, n int) string {
+	const a = "ABCDEFGHIJKLMNOPQRSTUVWXYZabcdefghijklmnopqrstuvwxyz0123456789+/"
+	raw := randBytes(g, n)
+	// std base64 by hand (the generator must not depend on the code under test)
+	var sb strings.Builder
+	for i := 0; i < len(raw); i += 3 {
+		var v uint32
+		k := 0
+		for j := 0; j < 3; j++ {
+			v <<= 8
+			if i+j < len(raw) {
+				v |= uint32(raw[i+j])
+				k++
+			}
+		}
+		sb.WriteByte(a[v>>18&63])
+		sb.WriteByte(a[v>>12&63])
+		if k > 1 {
+			sb.WriteByte(a[v>>6&63])
+		} else {
+			sb.WriteByte('=')
+		}
+		if k > 2 {
+			sb.WriteByte(a[v&63])
+		} else {
+			sb.WriteByte('=')
+		}
+	}
+	return sb.String()
+}
+
+var extOffers = []string{"permessage-deflate", "permessage-deflate; client_max_window_bits",
+	"permessage-deflate; server_no_context_takeover; client_no_context_takeover", "permessage-deflate; server_max_window_bits=10; client_max_window_bits=12",
+	"x-webkit-deflate-frame", "foo, permessage-deflate", "permessage-deflate; a=\"q\\\"x\"", "permessage-deflate;;", "permessage-deflate; =1",
+	"foo; bar=1 , permessage-deflate ;client_max_window_bits", "PERMESSAGE-DEFLATE", "permessage-deflate; a=\"unclosed", "bar; x=\"y, z\", permessage-deflate",
+	"permessage-deflate x", " ,permessage-deflate"}
+
+func genQ(g *lp.Gen) {
+	host := g.Pick("example.com", "a.b:8080", "Example.COM")
+	method := "GET"
+	h := [][2]string{{"Host", host}}
+	up := [][2]string{{spell(g, "Upgrade"), g.Pick("websocket", "websocket", "WebSocket", "WEBSOCKET", "websocket, h2c", "h2c,websocket")}}
+	co := [][2]string{{spell(g, "Connection"), g.Pick("Upgrade", "Upgrade", "upgrade", "keep-alive, Upgrade", "Upgrade,keep-alive", "keep-alive ,\tupgrade")}}
+	ke := [][2]string{{spell(g, "Sec-WebSocket-Key"), b64key(g, 16)}}
+	ve := [][2]string{{spell(g, "Sec-WebSocket-Version"), "13"}}
+	if g.Chance(1, 8) { // two Connection header lines
+		co = [][2]string{{"Connection", "keep-alive"}, {"Connection", "Upgrade"}}
+	}
+	if g.Chance(2, 5) { // exactly one MUST violated, or an odd neighbour
+		switch g.Intn(16) {
+		case 0:
+			method = g.Pick("POST", "PUT", "HEAD", "get", "OPTIONS")
+		case 1:
+			up = nil
+		case 2:
+			up[0][1] = g.Pick("h2c", "websockets", "web socket", "")
+		case 3:
+			co = nil
+		case 4:
+			co[0][1] = g.Pick("close", "keep-alive", "upgrades", "Upgrade;q=1")
+		case 5:
+			ve = nil
+		case 6:
+			ve[0][1] = g.Pick("8", "12", "14", "13, 8", "8, 13", "013", "13.0", "")
+		case 7:
+			ke = nil
+		case 8:
+			ke[0][1] = g.Pick("", "x", "AAAA", "not base64 !!!!!!!!!!!!!", b64key(g, 15), b64key(g, 17), b64key(g, 18), b64key(g, 16)[:23], b64key(g, 16)[:22]+"=A",
+				strings.Replace(b64key(g, 16), "=", "-", 1), b64key(g, 16)+"==")
+		case 9:
+			ke = append(ke, [2]string{"Sec-WebSocket-Key", b64key(g, 16)})
+		case 10:
+			h = append(h, [2]string{"Origin", g.Pick("http://evil.example", "http://"+host, "https://"+strings.ToUpper(host), "::bad::", "null")})
+		case 11:
+			co[0][1] = g.Pick("up grade", "\"upgrade\"", ",upgrade", "upgrade,", "upgrade , ,x")
+		default:
+		}
+	}
+	h = append(h, up...)
+	h = append(h, co...)
+	h = append(h, ke...)
+	h = append(h, ve...)
+	if g.Chance(1, 2) {
+		h = append(h, [2]string{spell(g, "Sec-WebSocket-Extensions"), extOffers[g.Intn(len(extOffers))]})
+		if g.Chance(1, 6) {
+			h = append(h, [2]string{"Sec-WebSocket-Extensions", extOffers[g.Intn(len(extOffers))]})
+		}
+	}
+	sp := "nil"
+	if g.Chance(1, 2) {
+		sp = g.Pick("", hx("chat"), hx("chat")+","+hx("superchat"), hx("v2.x"))
+		h = append(h, [2]string{spell(g, "Sec-WebSocket-Protocol"), g.Pick("chat", "superchat, chat", " chat ,superchat", "v1", "chat,", ",", "v2.x,chat")})
+	}
+	rh := [][2]string{}
+	if g.Chance(1, 5) {
+		switch g.Intn(4) {
+		case 0:
+			rh = append(rh, [2]string{"X-Test", g.Pick("v", "a\tb", "a\x01b\r\nInjected: 1")})
+		case 1:
+			rh = append(rh, [2]string{"Sec-WebSocket-Protocol", "chat"})
+		case 2:
+			rh = append(rh, [2]string{"Sec-WebSocket-Extensions", "x"})
+		case 3:
+			rh = append(rh, [2]string{"Set-Cookie", "a=b"})
+		}
+	}
+	// shuffle the header lines (Host first)
+	rest := h[1:]
+	g.Rng.Shuffle(len(rest), func(i, j int) { rest[i], rest[j] = rest[j], rest[i] })
+	g.P("Q path=%s ec=%d sp=%s rh=%s m=%s hd=%s", g.Pick("nb", "nb", "std"), b2i(g.Chance(2, 3)), sp, kvs(rh), hx(method), kvs(h))
+}
+
+func genP(g *lp.Gen) {
+	status := g.PickInt(101, 101, 101, 101, 101, 200, 400, 404)
+	acc := g.Pick("ok", "ok", "ok", "ok", "bad", "none")
+	h := [][2]string{{"Upgrade", g.Pick("websocket", "websocket", "WebSocket", "h2c", "websocket, x")}, {"Connection", g.Pick("Upgrade", "upgrade", "Upgrade", "keep-alive, Upgrade", "close")}}
+	if g.Chance(1, 10) {
+		h = h[:1]
+	}
+	if g.Chance(1, 2) {
+		h = append(h, [2]string{"Sec-WebSocket-Extensions", g.Pick("permessage-deflate; server_no_context_takeover; client_no_context_takeover",
+			"permessage-deflate; client_no_context_takeover; server_no_context_takeover", "permessage-deflate", "permessage-deflate; server_no_context_takeover",
+			"permessage-deflate; client_no_context_takeover", "foo, permessage-deflate; server_no_context_takeover; client_no_context_takeover",
+			"permessage-deflate; server_no_context_takeover; client_no_context_takeover; server_max_window_bits=15", "foo", "permessage-deflate;; x",
+			"permessage-deflate, permessage-deflate; server_no_context_takeover; client_no_context_takeover")})
+	}
+	if g.Chance(1, 3) {
+		h = append(h, [2]string{"Sec-WebSocket-Protocol", g.Pick("chat", "v1")})
+	}
+	sp := "-"
+	if g.Chance(1, 2) {
+		sp = g.Pick(hx("chat"), hx("chat")+","+hx("superchat"))
+	}
+	g.P("P ec=%d sp=%s status=%d accept=%s hd=%s", b2i(g.Chance(2, 3)), sp, status, acc, kvs(h))
+}
+
+func genHS(g *lp.Gen) {
+	g.P("C hs")
+	for i := 0; i < 70; i++ {
+		genQ(g)
+	}
+	for i := 0; i < 20; i++ {
+		genP(g)
+	}
+	for i := 0; i < 8; i++ {
+		csp := "-"
+		if g.Chance(1, 2) {
+			csp = g.Pick(hx("chat"), hx("superchat")+","+hx("chat"))
+		}
+		g.P("Z sec=%d cec=%d ssp=%s csp=%s", g.Intn(2), g.Intn(2), g.Pick("nil", "", hx("chat"), hx("chat")+","+hx("superchat")), csp)
+	}
+}
+
 func gen(g *lp.Gen) {
 	genMask(g, true)
+	genHS(g)
 	genTrunc(g)
 	genUTF8(g, int(genSeed%1000))
-	for i := 3; i < g.N; i++ {
+	for i := 4; i < g.N; i++ {
 		switch x := g.Intn(100); {
 		case x < 63:
 			genRecv(g)
